@@ -6,6 +6,7 @@ import Just.Model.Run
 import Just.Lemmas.RunSpec
 import Just.Lemmas.RunQuiet
 import Just.Lemmas.RunDry
+import Just.Lemmas.EvalDry
 namespace Just.Props.C14
 open Just.Run
 
@@ -328,5 +329,44 @@ theorem noEcho_keeps_everything_else (es : List Ev) :
   induction es with
   | nil => rfl
   | cons e es ih => cases e <;> simp [noEcho, ih]
+
+/-! ### `--dry-run` starts no process for a backtick, wherever the backtick stands
+
+The theorems above are about the Run model, whose expressions are literals, parameters, concatenations and
+backticks.  This one is about the full expression language (`Just.Eval`, the model of src/evaluator.rs): every
+constructor, every child position, every depth, assignments evaluated on the way included. -/
+section DryRunBackticks
+open Just Just.Eval
+
+/-- **under `--dry-run` no backtick is executed**: for every expression without a `shell()` call — whatever it is made
+of (`+`, `/`, `&&`, `||`, `if`/`else if` with any comparison, `assert`, function calls, groups, variables whose
+assignments are evaluated on demand), whatever the state, the fuel and the enclosing scopes — evaluating it adds no
+started process to the log.  A backtick as the operand of a comparison is a position like any other. -/
+theorem dry_run_starts_no_backtick (ctx : Ctx) (hd : ctx.dryRun = true)
+    (assigns : Option (List (String × Expr))) (ht : tableNoShell assigns) (fuel : Nat) (e : Expr) (st : St)
+    (he : noShell e = true) :
+    started (evalExpr ctx assigns fuel e st).1.log = started st.log :=
+  (dryAt ctx hd assigns ht fuel).1 e st he
+
+/-- the same for a whole table of assignments evaluated one by one (`--dry-run --evaluate`, the assignments a recipe
+needs) -/
+theorem dry_run_assignment_starts_no_backtick (ctx : Ctx) (hd : ctx.dryRun = true)
+    (assigns : Option (List (String × Expr))) (ht : tableNoShell assigns) (fuel : Nat) (n : String) (e : Expr) (st : St)
+    (he : noShell e = true) :
+    started (evalAssignment ctx assigns fuel n e st).1.log = started st.log :=
+  (dryAt ctx hd assigns ht fuel).2.2 n e st he
+
+/-- the hypothesis `noShell` is needed and the real run differs: `shell()` does run under `--dry-run` (recorded
+observation), and without `--dry-run` the backtick of the same expression is started -/
+example :
+    let e := Expr.cond (.backtick "c") .eq (.str "k") (.str "t") (.str "e")
+    let dry : Ctx := { bt := fun _ => some "k", envVar := fun _ => none, dryRun := true, parent := fun _ => none }
+    let real : Ctx := { dry with dryRun := false }
+    started (evalExpr dry none 5 e ⟨[], []⟩).1.log = [] ∧
+    started (evalExpr real none 5 e ⟨[], []⟩).1.log = ["c"] ∧
+    started (evalExpr dry none 5 (.call "shell" (.cons (.str "c") .nil)) ⟨[], []⟩).1.log = ["c"] := by
+  simp [evalExpr, evalExprs, started, evalCondOp]
+
+end DryRunBackticks
 
 end Just.Props.C14
